@@ -177,7 +177,7 @@ theorem GCtx.OK.rho_none {G : GCtx} (ok : G.OK) (n : String) (h : ∀ w, G.xc.ge
 /-- What an activation's memory says about the global state. -/
 theorem Rep.toG {G : GCtx} (ok : G.OK) {pi : PInfo} (hpi : pi ∈ G.procs) {sp dep : Nat} {hi : Nat → Word}
     {σ : X.St} {mem : Mem} (h : Rep (KOf G pi sp dep hi) σ mem) : GRep G σ mem := by
-  refine ⟨?_, ?_, h.acells, h.consts⟩
+  refine ⟨?_, ?_, h.acells, h.consts, h.strs⟩
   · intro n w hv hg
     have hn := ok.genv_vars n hv
     have hl : σ.locals.lookup n = none := h.gvis n (List.mem_append_left _ hn)
@@ -445,7 +445,18 @@ theorem rep_callee {G : GCtx} (ok : G.OK) {pi : PInfo} (hpi : pi ∈ G.procs) (w
       have := (ok.arr_hi id (by omega)).1
       show memP.read (G.abase id + idx) = w
       rw [hrest _ (by omega) (by omega)]
-      exact hv idx w hi }
+      exact hv idx w hi
+    strs := by
+      intro l bs ws j k hm hp hd idx hidx
+      obtain ⟨j', k', hd', _, h2, hlt⟩ := ok.str_ok l bs ws hm hp
+      have hj : j = j' := by
+        have e1 := labelIdx_of_nodup _ _ _ _ ok.nodup hd
+        have e2 := labelIdx_of_nodup _ _ _ _ ok.nodup hd'
+        rw [e1] at e2; simpa using e2
+      subst hj
+      show memP.read (G.env.addr j / 4 + idx) = _
+      rw [hrest _ (by omega) (by omega)]
+      exact hg.strs l bs ws j k hm hp hd idx hidx }
 
 /-! ### The callee -/
 
@@ -453,7 +464,7 @@ theorem GRep.frame {G : GCtx} (ok : G.OK) {σ σ' : X.St} {mem mem' : Mem} (h : 
     (hga : σ'.arrays = σ.arrays)
     (hm : ∀ a, 2 ≤ a → a < G.lo → mem'.read a = mem.read a)
     (hma : ∀ a, G.inArr a → mem'.read a = mem.read a) : GRep G σ' mem' := by
-  refine ⟨?_, ?_, ?_, ?_⟩
+  refine ⟨?_, ?_, ?_, ?_, ?_⟩
   · intro n w hv hl
     rw [hg] at hl
     have hn := ok.genv_vars n hv
@@ -476,6 +487,15 @@ theorem GRep.frame {G : GCtx} (ok : G.OK) {σ σ' : X.St} {mem mem' : Mem} (h : 
   · intro v l j k hmem hd
     rw [hm _ (ok.const_ge v l j k hmem hd) (ok.const_lo v l j k hmem hd)]
     exact h.consts v l j k hmem hd
+  · intro l bs ws j k hmem hp hd idx hidx
+    obtain ⟨j', k', hd', _, h2, hlt⟩ := ok.str_ok l bs ws hmem hp
+    have hj : j = j' := by
+      have e1 := labelIdx_of_nodup _ _ _ _ ok.nodup hd
+      have e2 := labelIdx_of_nodup _ _ _ _ ok.nodup hd'
+      rw [e1] at e2; simpa using e2
+    subst hj
+    rw [hm _ (by omega) (by omega)]
+    exact h.strs l bs ws j k hmem hp hd idx hidx
 
 theorem callee_correct {G : GCtx} (ok : G.OK) (fuel : Nat) (ih : StmtSpec G fuel) : CallSpec G (fuel + 1) := by
   intro pi hpi ws st lnk b mem spc k kind n hg hm1 hokv hargs hstack htop hlo hk hlink
